@@ -419,8 +419,16 @@ func expectC10(before []byte, a *Assets, op *Op) (c10expect, bool) {
 	if n.Router == nil || n.Router.Wait == nil {
 		return c10expect{impossible: "node without wait"}, true
 	}
-	// the accept table: a msg wait accepts msg and run_expiration, and wait_timeout iff it has a timeout
+	// the accept table: a msg wait accepts msg and run_expiration, and wait_timeout iff it has a timeout; a dial
+	// wait accepts only dial
 	accepted := false
+	if n.Router.Wait.Dial {
+		accepted = op.Kind == "dial"
+		if !accepted {
+			ex.reject = 103
+		}
+		return ex, true
+	}
 	switch op.Kind {
 	case "msg", "tamper", "expiration":
 		accepted = true
